@@ -37,7 +37,9 @@ def run(ck):
     for s in cg.out[cmd_push.id]:
         if s.callee in prog.fns and s.callee.startswith(cmd_push.id):
             scope.add(s.callee)
-    obl, an = panics.analyse_scope(prog, cg, scope)
+    obl, an = panics.analyse_scope(prog, cg, scope, libcalls=True)
+    # println!/eprintln! failing on a closed stream is presentation, not refusal logic
+    obl = [o for o in obl if getattr(o, "libclass", None) != "print"]
     n = 0
     for o in obl:
         if o.fn.id not in own or o.kind == "alloc":
